@@ -399,3 +399,274 @@ def directed_value(r, lab, cur, width, n, anch):
             pool += [e - k for k in (1, 2, 3, 4, 7, 8, 12, 16, 20, 24, 39, 40)] + [e, e + 1]
         pool += [top, top - 7, 0]
     return r.choice(pool) & top
+
+
+# ---------------------------------------------------------------------------------------------------------------------
+# Tables at the very end of the buffer: for every (pointer field, count field, element size) the parsers walk, the table
+# is copied so that it ends EXACTLY at the last byte of the file (or sticks out by part of an element), the pointer is
+# re-aimed at the copy and the count relations are varied. With the exact-size heap copy made by harness/h_fuzzmod.c
+# the first element read past the validated count is an ASan report.
+def _rd(d, off, w, en="<"):
+    if off is None or off < 0 or off + w > len(d):
+        return None
+    return int.from_bytes(d[off:off + w], "little" if en == "<" else "big")
+
+
+def reloc_targets(d):
+    """-> list of dict(label, ptr=(off,w,en), to_field=f(file_off)->value|None, block=(off,len), counts=[(off,w,en,label)], elem)"""
+    T = []
+    n = len(d)
+    pe = PEInfo(d)
+    if pe.ok:
+        def rva_of(off):
+            for va, vs, rp, rs in pe.sections:
+                if rs and rp <= off <= rp + rs and rp + rs >= n - 8:
+                    return va + (off - rp)
+            for va, vs, rp, rs in pe.sections:
+                if rs and rp <= off < rp + rs:
+                    return va + (off - rp)
+            return None
+        F = {l: (o, w, e) for o, w, e, l in pe.F}
+        def fld(l): return F.get(l)
+        def val(l):
+            f = fld(l); return _rd(d, f[0], f[1], f[2]) if f else None
+        def offv(l):
+            v = val(l); return pe.off(v) if v else None
+        if fld("export.NumberOfFunctions"):
+            nf, nn = val("export.NumberOfFunctions") or 0, val("export.NumberOfNames") or 0
+            cnts = [fld("export.NumberOfFunctions") + ("NumberOfFunctions",), fld("export.NumberOfNames") + ("NumberOfNames",)]
+            for lab, cnt, E in (("export.AddressOfFunctions", nf, 4), ("export.AddressOfNames", nn, 4), ("export.AddressOfNameOrdinals", nn, 2)):
+                o = offv(lab)
+                if o is not None and 0 < cnt * E <= 8192:
+                    T.append(dict(label=lab, ptr=fld(lab), to_field=rva_of, block=(o, cnt * E), counts=cnts, elem=E))
+            o = offv("export.Name")
+            if o is not None:
+                e = d.find(b"\0", o, o + 256)
+                if e > o: T.append(dict(label="export.Name", ptr=fld("export.Name"), to_field=rva_of, block=(o, e - o), counts=[], elem=1))
+        for di, lab, E in ((0, "dir0", 40), (1, "dir1", 20), (13, "dir13", 32), (6, "dir6", 28), (2, "dir2", 16), (14, "dir14", 72)):
+            if fld("%s.rva" % lab) and val("%s.rva" % lab):
+                o = pe.off(val("%s.rva" % lab))
+                if o is not None:
+                    ln = E
+                    if di in (1, 13):
+                        k = 0
+                        while o + E * (k + 1) <= n and d[o + E * k:o + E * (k + 1)] != bytes(E) and k < 32: k += 1
+                        ln = E * k if k else E
+                    T.append(dict(label=lab + ".table", ptr=fld("%s.rva" % lab), to_field=rva_of, block=(o, ln), counts=[fld("%s.size" % lab) + ("dirsize",)], elem=E))
+        for k in range(8):
+            for lab, E in (("import%d.OriginalFirstThunk" % k, 8 if pe.plus else 4), ("import%d.FirstThunk" % k, 8 if pe.plus else 4)):
+                if fld(lab) and val(lab):
+                    o = pe.off(val(lab))
+                    if o is not None:
+                        j = 0
+                        while o + E * (j + 1) <= n and d[o + E * j:o + E * (j + 1)] != bytes(E) and j < 64: j += 1
+                        if j: T.append(dict(label=lab, ptr=fld(lab), to_field=rva_of, block=(o, E * j), counts=[], elem=E))
+            lab = "import%d.Name" % k
+            if fld(lab) and val(lab):
+                o = pe.off(val(lab))
+                if o is not None:
+                    e = d.find(b"\0", o, o + 256)
+                    if e > o: T.append(dict(label=lab, ptr=fld(lab), to_field=rva_of, block=(o, e - o), counts=[], elem=1))
+        for l in list(F):
+            if l.startswith("stream") and l.endswith(".Offset"):
+                so, sz = val(l), val(l.replace(".Offset", ".Size"))
+                mdf = [o for o, w, e, ll in pe.F if ll == "md.VersionLength"]
+                if mdf and so is not None and sz:
+                    md = mdf[0] - 12
+                    if md + so + sz <= n and sz <= 1 << 16:
+                        T.append(dict(label="dotnet." + l, ptr=F[l], to_field=(lambda off, md=md: off - md if off >= md else None), block=(md + so, sz),
+                                      counts=[F[l.replace(".Offset", ".Size")] + ("streamsize",)], elem=4))
+        return T
+    if d[:4] == b"\x7fELF" and len(d) > 0x40:
+        is64, en = d[4] == 2, (">" if d[5] == 2 else "<")
+        W = 8 if is64 else 4
+        lay = dict(phoff=32, shoff=40, phentsize=54, phnum=56, shentsize=58, shnum=60) if is64 else dict(phoff=28, shoff=32, phentsize=42, phnum=44, shentsize=46, shnum=48)
+        ident = lambda off: off
+        for nm, offk, cntk, esk in (("elf.shtable", "shoff", "shnum", "shentsize"), ("elf.phtable", "phoff", "phnum", "phentsize")):
+            o, c, es = _rd(d, lay[offk], W, en), _rd(d, lay[cntk], 2, en), _rd(d, lay[esk], 2, en)
+            if o and c and es and o + c * es <= n:
+                T.append(dict(label=nm, ptr=(lay[offk], W, en), to_field=ident, block=(o, c * es), counts=[(lay[cntk], 2, en, cntk)], elem=es))
+        shoff, shnum = _rd(d, lay["shoff"], W, en) or 0, _rd(d, lay["shnum"], 2, en) or 0
+        hs = 64 if is64 else 40
+        for i in range(min(shnum, 48)):
+            h = shoff + hs * i
+            ty = _rd(d, h + 4, 4, en)
+            so, ss = _rd(d, h + (24 if is64 else 16), W, en), _rd(d, h + (32 if is64 else 20), W, en)
+            if ty in (2, 3, 6, 11) and so and ss and so + ss <= n and ss <= 1 << 16:
+                T.append(dict(label="elf.section[type=%d]" % ty, ptr=(h + (24 if is64 else 16), W, en), to_field=ident, block=(so, ss),
+                              counts=[(h + (32 if is64 else 20), W, en, "sh_size")], elem={2: 24 if is64 else 16, 11: 24 if is64 else 16, 6: 2 * W}.get(ty, 1)))
+        return T
+    if d[:4] == b"dex\n" and len(d) >= 0x70:
+        g = lambda name: 8 + 4 * DEX_HDR.index(name)
+        for nm, es in (("string_ids", 4), ("type_ids", 4), ("proto_ids", 12), ("field_ids", 8), ("method_ids", 8), ("class_defs", 32)):
+            o, c = _rd(d, g(nm + "_off"), 4), _rd(d, g(nm + "_size"), 4)
+            if o and c and o + c * es <= n and c * es <= 1 << 16:
+                T.append(dict(label="dex." + nm, ptr=(g(nm + "_off"), 4, "<"), to_field=lambda off: off, block=(o, c * es), counts=[(g(nm + "_size"), 4, "<", nm + "_size")], elem=es))
+        mo = _rd(d, g("map_off"), 4)
+        if mo and mo + 4 <= n:
+            c = _rd(d, mo, 4) or 0
+            if mo + 4 + 12 * c <= n and c <= 64:
+                T.append(dict(label="dex.map_list", ptr=(g("map_off"), 4, "<"), to_field=lambda off: off, block=(mo, 4 + 12 * c), counts=[], elem=12))
+        return T
+    return T
+
+
+def reloc_cases(r, d, targets, per_target=6):
+    """-> list of (ops, kind)"""
+    out = []
+    n = len(d)
+    for t in targets:
+        bo, bl = t["block"]
+        E = t["elem"]
+        po, pw, pen = t["ptr"]
+        blk = bytes(d[bo:bo + bl])
+        variants = [0, 0, 0, max(1, E // 2), 1, E - 1 if E > 1 else 1]
+        for v in range(per_target):
+            stick = variants[v % len(variants)]                # how many bytes of the table lie past the end
+            keep = bl - stick
+            if keep <= 0:
+                continue
+            dst = n - keep
+            fv = t["to_field"](dst)
+            if fv is None or dst < 0:
+                continue
+            ops = ["X%d:%s" % (dst, blk[:keep].hex()), "%s%d:%d:%x" % ("W" if pen == "<" else "B", po, pw, fv & ((1 << (8 * pw)) - 1))]
+            kind = "table@EOF:" + t["label"].split(".")[0].rstrip("0123456789")
+            if v >= 1 and t["counts"]:
+                co, cw, cen, cl = r.choice(t["counts"])
+                cur = _rd(d, co, cw, cen) or 0
+                nv = r.choice([cur + 1, cur + 2, cur * 2 + 1, 0, 1, max(0, cur - 1), 16384, (1 << (8 * cw)) - 1])
+                ops.append("%s%d:%d:%x" % ("W" if cen == "<" else "B", co, cw, nv & ((1 << (8 * cw)) - 1)))
+                kind += "+count"
+            out.append((",".join(ops), kind))
+        if t["label"].startswith("export.Address") and len(t["counts"]) == 2:
+            # NumberOfFunctions vs NumberOfNames relations (<, =, >, 0, huge) with the table sized for ITS OWN count ending exactly at EOF
+            (fo, fw, fe, _), (no, nw, ne, _) = t["counts"]
+            nf0, nn0 = _rd(d, fo, fw, fe) or 0, _rd(d, no, nw, ne) or 0
+            own_is_f = t["label"].endswith("AddressOfFunctions")
+            for nn, nf in ((nn0, nn0 + 1), (nn0, 2 * nn0 + 1), (1, max(2, nn0)), (nn0, 16384), (0, max(1, nn0)), (nn0, 0), (nn0 + 1, nn0), (2, 3), (1, 1), (nn0, nn0),
+                           (max(1, nn0 - 1), nn0), (nn0, 0xffffffff), (0xffffffff, nn0)):
+                own = nf if own_is_f else nn
+                keep = min(own * E, bl, 4096)
+                if keep <= 0:
+                    continue
+                dst = n - keep
+                fv = t["to_field"](dst)
+                if fv is None:
+                    continue
+                out.append((",".join(["X%d:%s" % (dst, blk[:keep].hex()), "W%d:%d:%x" % (po, pw, fv), "W%d:%d:%x" % (fo, fw, nf & 0xffffffff),
+                                      "W%d:%d:%x" % (no, nw, nn & 0xffffffff)]), "table@EOF:export+relations"))
+    return out
+
+
+# ---------------------------------------------------------------------------------------------------------------------
+# .NET #Blob heap: signature blobs rewritten in place with crafted type encodings (ECMA-335 II.23.2)
+def _cint(v):
+    if v < 0x80: return bytes([v])
+    if v < 0x4000: return bytes([0x80 | (v >> 8), v & 0xff])
+    return bytes([0xC0 | ((v >> 24) & 0x1f), (v >> 16) & 0xff, (v >> 8) & 0xff, v & 0xff])
+
+
+def dotnet_blob_heap(d):
+    """-> (heap file offset, heap size, [(offset of length prefix, prefix size, blob length)]) or None"""
+    md = -1
+    pe = PEInfo(d)
+    if pe.ok:
+        for off, w, en, lab in pe.F:
+            if lab == "md.VersionLength":
+                md = off - 12
+    if md < 0:
+        md = d.find(b"BSJB")
+    if md < 0 or md + 20 > len(d):
+        return None
+    vl = u32(d, md + 12) or 0
+    p = md + 16 + vl + 2
+    ns = u16(d, p) or 0
+    p += 2
+    for _ in range(min(ns, 16)):
+        if p + 8 > len(d): return None
+        so, sz = u32(d, p), u32(d, p + 4)
+        q = p + 8
+        name = b""
+        while q < len(d) and d[q] != 0 and q - p < 40:
+            name += d[q:q + 1]; q += 1
+        q += 1
+        q = p + 8 + ((q - (p + 8) + 3) // 4) * 4
+        if name == b"#Blob":
+            h = md + so
+            if h + sz > len(d): sz = max(0, len(d) - h)
+            blobs, x = [], h + 1
+            while x < h + sz:
+                b0 = d[x]
+                if b0 & 0x80 == 0: L, hs = b0, 1
+                elif b0 & 0xC0 == 0x80 and x + 1 < h + sz: L, hs = ((b0 & 0x3f) << 8) | d[x + 1], 2
+                elif b0 & 0xE0 == 0xC0 and x + 3 < h + sz: L, hs = ((b0 & 0x1f) << 24) | (d[x + 1] << 16) | (d[x + 2] << 8) | d[x + 3], 4
+                else: break
+                if x + hs + L > h + sz: break
+                blobs.append((x, hs, L))
+                x += hs + L
+            return h, sz, blobs
+        p = q
+    return None
+
+
+def dotnet_signatures():
+    """crafted type encodings: general arrays with every relation of rank / NumSizes / NumLoBounds, deep nesting, generic instantiations,
+    compressed-integer boundary encodings, function pointers, custom modifiers"""
+    T = []
+    for rank in (0, 1, 2, 50, 51, 127, 128):
+        for ns in (0, 1, 2, 25, 50, 51):
+            for nl in (0, 1, 2, 2 * ns, 2 * ns + 1, 50, 51, 127):
+                if len(T) > 400: break
+                sizes = b"".join(_cint(3) for _ in range(ns))
+                los = bytes([0x7E]) * nl                      # non-zero signed compressed lower bounds
+                T.append(bytes([0x14, 0x08]) + _cint(rank) + _cint(ns) + sizes + _cint(nl) + los)
+    T += [bytes([0x14, 0x08]) + _cint(2) + _cint(0x3fff) + b"\x03" * 8, bytes([0x14, 0x08]) + _cint(2) + _cint(1) + b"\x03" + _cint(0x1fffffff) + b"\x7e" * 8,
+          bytes([0x14, 0x14, 0x08, 1, 0, 1, 0x7e, 1, 0, 1, 0x7e]), bytes([0x14, 0x1d, 0x08, 2, 0, 2, 2, 2])]
+    for k in (1, 15, 16, 17, 32, 64):
+        T += [bytes([0x0f]) * k + b"\x08", bytes([0x1d]) * k + b"\x0e", bytes([0x10]) + bytes([0x1d]) * k + b"\x1c", (bytes([0x14]) * k) + b"\x08" + b"\x01\x00\x00" * k]
+    for cnt in (0, 1, 2, 127, 128, 255, 0x3fff):
+        T.append(bytes([0x15, 0x12]) + _cint(0x49) + _cint(cnt) + b"\x08\x0e\x1c" * min(cnt, 8))
+        T.append(bytes([0x15, 0x11]) + _cint(0x1fffffff) + _cint(cnt) + b"\x08" * min(cnt, 4))
+    T += [bytes([0x15, 0x12, 0x49, 1]) * 20 + b"\x08", bytes([0x1b, 0x00, 0x01, 0x08, 0x08]), bytes([0x1b, 0x20, 0x7f]) + b"\x08" * 20, bytes([0x1b]) * 30,
+          bytes([0x13]) + _cint(0x1fffffff), bytes([0x1e]) + _cint(0x3fff), bytes([0x1f, 0x49, 0x20, 0x4d, 0x08]), bytes([0x1f]) * 20, bytes([0x12]) + b"\xff\xff\xff\xff",
+          bytes([0x11, 0xe0]), bytes([0x12, 0xc0]), bytes([0x12, 0x80]), b"\x16", b"\x41", b"\x45", b"\x00", b"\xff", bytes([0x14]), bytes([0x14, 0x08]), bytes([0x14, 0x08, 0x80])]
+    return T
+
+
+def dotnet_blob_cases(r, d, per_seed=60):
+    """-> [(ops, kind)]: a method / field / local / typespec signature blob overwritten (length prefix rewritten as well, the rest of the blob zero-padded)"""
+    H = dotnet_blob_heap(d)
+    if not H or not H[2]:
+        return []
+    h, sz, blobs = H
+    sigs = dotnet_signatures()
+    meth = [b for b in blobs if b[2] >= 3 and d[b[0] + b[1]] in (0x00, 0x20, 0x10, 0x30, 0x05, 0x25)]
+    other = [b for b in blobs if b[2] >= 2 and b not in meth]
+    out = []
+    for k in range(per_seed):
+        t = sigs[(k * 7 + r.randrange(len(sigs))) % len(sigs)] if k >= len(sigs) else sigs[r.randrange(len(sigs))]
+        form = r.choice(["ret", "param", "hasthis", "generic", "field", "typespec", "local", "prop"])
+        body = {"ret": b"\x00\x00" + t, "param": b"\x00\x01\x01" + t, "hasthis": b"\x20\x02\x08" + t + t, "generic": b"\x10\x01\x01\x01" + t, "field": b"\x06" + t,
+                "typespec": t, "local": b"\x07\x01" + t, "prop": b"\x28\x00" + t}[form]
+        pool = meth if (form in ("ret", "param", "hasthis", "generic") and meth) else (other or meth)
+        if not pool:
+            break
+        x, hs, L = r.choice(pool)
+        room = min(L, 4096)
+        if len(body) > room:
+            # grow the blob over its successors: rewrite the length prefix (same width when possible)
+            newL = len(body)
+            pre = _cint(newL)
+            if len(pre) != hs or x + hs + newL > h + sz:
+                body = body[:room]
+                pre = None
+        else:
+            pre = None
+            body = body + bytes(room - len(body)) if r.random() < 0.7 else body
+        ops = []
+        if pre:
+            ops.append("X%d:%s" % (x, pre.hex()))
+        ops.append("X%d:%s" % (x + hs, body.hex()))
+        out.append((",".join(ops), "dotnet-signature:" + form))
+    return out
